@@ -195,9 +195,12 @@ def collect_names(expr, mode: str) -> Names:
             return
         if not isinstance(e, sp.Basic):
             return
-        if id(e) in seen:
-            return
-        seen.add(id(e))
+        try:
+            if e in seen:
+                return
+            seen.add(e)
+        except TypeError:
+            pass
         if isinstance(e, r["Symbolic"]):
             walk(e.factor)
             return
@@ -218,6 +221,9 @@ def collect_names(expr, mode: str) -> Names:
             names.add_symbol(display_name(e, mode), e)
             return
         if isinstance(e, (sp.Symbol, SymQuantity)):
+            if isinstance(e, SymQuantity) and isinstance(e, r["DimensionSymbol"]) and "QTY" in e.display_name:
+                raise Uncovered("the expression contains an unnamed Quantity (rendered as SI value * unit, not under a "
+                                "display name)")
             names.add_symbol(display_name(e, mode), e)
             return
         if isinstance(e, sp.MatrixBase):
@@ -243,7 +249,7 @@ def collect_names(expr, mode: str) -> Names:
                 names.add_symbol(sp.sstr(e) if mode == "code" else sp.latex(e), e)
             except Exception:
                 pass
-        if e.args:
+        if e.args and not isinstance(e, AppliedUndef):
             names.heads.add(type(e).__name__)
         for a in e.args:
             walk(a)
@@ -309,7 +315,16 @@ def _canon(e, r):
     if isinstance(e, r["IndexedProduct"]):
         return F_IPROD(_canon(e.args[0], r), *e.args[1:])
     if isinstance(e, sp.Derivative):
-        return sp.Derivative(_canon(e.expr, r), *[(_canon(v, r), n) for v, n in e.variable_count])
+        d = sp.Derivative(_canon(e.expr, r), *[(_canon(v, r), n) for v, n in e.variable_count])
+        if isinstance(d, sp.Derivative) and (d.expr.is_Mul or d.expr.is_Add or d.expr.is_Pow):
+            # constants move out, products/sums expand: SymPy's diff (trusted base); applications f(x) stay opaque
+            try:
+                d2 = d.doit(deep=False)
+                if not d2.has(sp.Subs):
+                    return d2
+            except Exception:
+                pass
+        return d
     if isinstance(e, sp.Integral):
         lims = [tuple(_canon(x, r) if i else x for i, x in enumerate(lim)) for lim in e.limits]
         return sp.Integral(_canon(e.function, r), *lims)
@@ -603,29 +618,26 @@ def str_atom(k) -> str:
         return str(k)
 
 
+_show_printer = None
+
+
 def show(e) -> str:
-    """Readable form of an expression for reports: atoms under their display names, SymPy's own str otherwise."""
-    r = R()
+    """Readable form of an expression for reports: atoms and functions under their display names, SymPy's str otherwise."""
+    global _show_printer
+    if _show_printer is None:
+        from sympy.printing.str import StrPrinter
+
+        class _Show(StrPrinter):
+            def _print_Function(self, expr):
+                f = expr.func
+                nm = f.display_name if isinstance(f, R()["DimensionSymbol"]) else f.__name__
+                return nm + "(%s)" % self.stringify(expr.args, ", ")
+
+        _show_printer = _Show({"order": "none"})
     try:
-        if isinstance(e, Relational):
-            return f"{show(e.lhs)} {e.rel_op} {show(e.rhs)}"
         if isinstance(e, (list, tuple)):
             return "[" + ", ".join(show(x) for x in e) + "]"
-        rep = {}
-        for s in e.atoms(sp.Symbol, SymQuantity):
-            if isinstance(s, r["Symbolic"]):
-                continue
-            n = display_name(s, "code")
-            if n != str(s):
-                rep[s] = sp.Symbol(n)
-        for f in e.atoms(AppliedUndef):
-            if isinstance(f.func, r["DimensionSymbol"]):
-                rep[f] = None
-        e2 = e.xreplace({k: v for k, v in rep.items() if v is not None})
-        for f in sorted((f for f in e2.atoms(AppliedUndef) if isinstance(f.func, r["DimensionSymbol"])),
-                        key=lambda f: len(str(f))):
-            e2 = e2.xreplace({f: sp.Function(f.func.display_name)(*f.args)})
-        return sp.sstr(e2, order="none")
+        return _show_printer.doprint(e)
     except Exception:
         return str(e)
 
@@ -661,6 +673,19 @@ def number_value(text: str):
         return sp.Integer(int(text))
     fr = Fraction(text)  # a decimal literal denotes exactly the printed decimal
     return sp.Rational(fr.numerator, fr.denominator)
+
+
+COVERED_HEADS = set(
+    "Equality Unequality StrictLessThan LessThan StrictGreaterThan GreaterThan Add Mul Pow Derivative Integral Tuple "
+    "log exp sin cos tan cot sec csc sinh cosh tanh coth asin acos atan acot asinh acosh atanh acoth Abs factorial sign "
+    "conjugate hermite besselj besselk besseli bessely Min Max IndexedSum IndexedProduct Order MatMul Indexed Idx "
+    "Piecewise ExprCondPair".split())
+
+
+def check_covered(names: Names):
+    extra = sorted(names.heads - COVERED_HEADS)
+    if extra:
+        raise Uncovered(f"the expression contains {', '.join(extra)}: outside the reference reader")
 
 
 class _Tup(tuple):
@@ -1002,6 +1027,7 @@ class CodeReader:
 def read_code(s: str, expr) -> Any:
     """Reference reading of a code rendering `s` of `expr` (only the atoms' display names of `expr` are used)."""
     names = collect_names(expr, "code")
+    check_covered(names)
     with sp.evaluate(True):
         return CodeReader(s, names).parse()
 
@@ -1258,6 +1284,9 @@ class TexReader:
         factors = []
         while True:
             tk = self.peek()
+            if tk == "|" and self.match_name(self._sym)[0] is not None:
+                factors.append(self.factor())  # a display name such as |Z|
+                continue
             if tk in _TEX_STOP or tk == "|":
                 break
             if tk in (r"\cdot", r"\times"):
@@ -1719,6 +1748,7 @@ def read_tex(s: str, expr) -> Any:
     if why:
         raise Malformed("not well-formed: " + why)
     names = collect_names(expr, "latex")
+    check_covered(names)
     with sp.evaluate(True):
         return TexReader(tex_tokens(s), names).parse_all("relation")
 
